@@ -162,6 +162,56 @@ func c18Import(c *vc.Ctx, lh *lockHist, exp servertypes.ExportedApp, viol func(s
 	ih.rejectFn = func(rj *world.ErrRejected) {
 		viol("the imported chain rejects its own honest proposal", fmt.Sprintf("state exported at height %d (%v): %v", exp.Height-1, traits, rj))
 	}
+	// ---- probe of the derived stake index: the same weight raise on the source chain and on the imported
+	// chain must move every validator's power by the same amount (differential, no formula) ----
+	probe := func(o *blockOps) {
+		for _, tk := range lh.tokens {
+			cur := uint64(0)
+			if t := lh.token(src, tk); t != nil {
+				cur = t.Weight
+			}
+			o.Reqs.Locking.UpdateWeights = append(o.Reqs.Locking.UpdateWeights, &goattypes.UpdateTokenWeightRequest{Token: tk, Weight: cur + 3})
+		}
+		o.Desc = append(o.Desc, "probe: raise every token weight by 3")
+	}
+	powerOf := func(s *world.Snap) map[string][2]uint64 {
+		m := map[string][2]uint64{}
+		for _, v := range s.Locking.Validators {
+			m[fmt.Sprintf("%x", v.Pubkey)] = [2]uint64{v.Power, uint64(v.Status)}
+		}
+		return m
+	}
+	{
+		w0, a0 := lh.cfg.W, lh.absentRun
+		lh.cfg.W, lh.absentRun = lockWeights{}, map[int]int{}
+		lh.extra = probe
+		okSrc := lh.step()
+		lh.extra = nil
+		lh.cfg.W, lh.absentRun = w0, a0
+		iw0 := ih.cfg.W
+		ih.cfg.W = lockWeights{}
+		ih.extra = probe
+		okImp := okSrc && ih.step()
+		ih.extra = nil
+		ih.cfg.W = iw0
+		if okSrc && okImp && lh.blk.BlockOK && ih.blk.BlockOK {
+			sa, sb := powerOf(lh.pre), powerOf(lh.post)
+			ib := powerOf(ih.post)
+			for k, before := range sa {
+				after, onImp := sb[k], ib[k]
+				if st := lockingtypes.ValidatorStatus(after[1]); before[1] != after[1] && st != lockingtypes.Pending && st != lockingtypes.Active {
+					continue // punished or exited on the source chain in this very block: not comparable
+				}
+				if after != onImp {
+					viol("a derived index was not rebuilt on import: the same weight change moves a validator differently", fmt.Sprintf("state exported at height %d (%v): validator %s power %d -> %d (status %d) on the source chain, %d (status %d) on the chain started from the export",
+						exp.Height-1, traits, k[:8], before[0], after[0], after[1], onImp[0], onImp[1]))
+				}
+			}
+			c.Count("weight_probes_compared", 1)
+		} else if okSrc && !okImp {
+			return
+		}
+	}
 	m11 := newC11Mon(ih)
 	// unlocks queued before the export are released on the imported chain: they belong to the balance
 	m12 := newC12Mon(ih)
